@@ -29,3 +29,10 @@ m["engines"] = [{"name": e, "path": desc.get(e, (e, ""))[0], "serves_properties"
 m["engines"].append({"name": "mkoverlay", "path": "tools/mkoverlay", "serves_properties": sorted(c), "kind_free_text": "build-overlay instrumentation of kafka-go (no source change): sync/atomic shims, goroutine-start points, deterministic map-range and select order, injected read-only export files"})
 json.dump(m, open(os.path.join(R, "MANIFEST.json"), "w"), indent=1)
 print("claimed:", sorted(c), "not applicable:", [x["property_id"] for x in m["not_applicable"]])
+
+# never leave an invalid manifest behind
+import subprocess, sys
+r = subprocess.run(["python3-vt", "-c", "import json,jsonschema,sys; jsonschema.validate(json.load(open(sys.argv[1])), json.load(open('/root/.vp/MANIFEST.schema.json')))", os.path.join(ROOT, "MANIFEST.json")], capture_output=True, text=True)
+if r.returncode != 0:
+    sys.stderr.write("MANIFEST.json does not validate:\n" + r.stderr[-1500:])
+    sys.exit(1)
